@@ -56,6 +56,9 @@ pub enum LinkFault {
     SymlinkUnderForeignPrefix(u8),
     /// the entry is a symbolic link under the proper name pointing to the document stored elsewhere (harmless)
     SymlinkUnderOwnPrefix,
+    /// the step additionally authorises the layout *owner's* key (one of the keys the layout is verified with), which
+    /// the key table does not define; the owner signs the replacement link and files it under the owner's prefix
+    ByOwnerKeyMissingFromTable,
 }
 
 #[derive(Clone, Debug, Serialize, Deserialize)]
@@ -128,6 +131,14 @@ pub fn apply_faults(spec: &Spec) -> (World, Option<serde_json::Value>) {
                 let sidx = *si as usize % nsteps;
                 w.layout.steps[sidx].pubkeys.push(s.clone());
                 w.links[i] = LinkFile { step: step.name.clone(), filed_under: s.clone(), name_field: None, symlink_store: false, body: Body::Link { link: base_link, sigs: vec![SigEntry::good(&s)], tamper: None } };
+            }
+            LinkFault::ByOwnerKeyMissingFromTable => {
+                if let Some(owner) = spec.owners.first().cloned() {
+                    let sidx = *si as usize % nsteps;
+                    w.layout.keys.retain(|k| material(k) != material(&owner));
+                    w.layout.steps[sidx].pubkeys.push(owner.clone());
+                    w.links[i] = LinkFile { step: step.name.clone(), filed_under: owner.clone(), name_field: None, symlink_store: false, body: Body::Link { link: base_link, sigs: vec![SigEntry::good(&owner)], tamper: None } };
+                }
             }
             LinkFault::ByStranger(n) => {
                 let s = stranger(n.wrapping_add(20));
@@ -288,6 +299,7 @@ fn fault_strategy() -> BoxedStrategy<LinkFault> {
         2 => any::<u8>().prop_map(LinkFault::UnknownSchemeFunctionary),
         2 => any::<u8>().prop_map(LinkFault::SymlinkUnderForeignPrefix),
         1 => Just(LinkFault::SymlinkUnderOwnPrefix),
+        2 => Just(LinkFault::ByOwnerKeyMissingFromTable),
     ]
     .boxed()
 }
